@@ -38,7 +38,7 @@ def plan(tier, seed):
 
 
 def mandatory(tier):
-    return ["ac/True", "ac/False", "D/2", "D/3", "compose_affine", "compose_after_other_convention", "batch>1", "bracket", "bch_commuting", "bch_noncommuting", "bch_series_terms", "bracket/options/sigma", "bracket/options/sigma+spacing", "bracket/options/spacing", "bracket/options/per_item_spacing", "logv", "logv/bch_terms/0", "logv/bch_terms/1", "logv/bch_terms/2", "logv/bch_terms/3"] + [f"bch_terms/{k}" for k in range(6)]
+    return ["ac/True", "ac/False", "D/2", "D/3", "compose_affine", "compose_after_other_convention", "batch>1", "bracket", "bch_commuting", "bch_noncommuting", "bch_series_terms", "bracket/options/sigma", "bracket/options/sigma+spacing", "bracket/options/spacing", "bracket/options/per_item_spacing", "bracket/linear_fields/gaussian", "bracket/linear_fields/central", "logv", "logv/exp_steps=0", "logv/bch_terms/0", "logv/bch_terms/1", "logv/bch_terms/2", "logv/bch_terms/3"] + [f"bch_terms/{k}" for k in range(6)]
 
 
 def to_samples(w, shape, ac):
@@ -122,6 +122,32 @@ def run_item(ctx, item):
             ctx.close("bracket_linear_in_second_argument", r12, rin, 1e-10 * s + 1e-14, key="bracket/bilinear", mode=str(mode), **info)
             ctx.close("bracket_antisymmetric", U.lie_bracket(a1, b1, **kw), -U.lie_bracket(b1, a1, **kw), 1e-10 * s + 1e-14, key="bracket/antisymmetric", mode=str(mode), **info)
             ctx.close("bracket_with_itself_is_zero", U.lie_bracket(a1, a1, **kw), torch.zeros_like(a1), 1e-10 * s + 1e-14, key="bracket/antisymmetric", mode=str(mode), **info)
+    # ---------------- (b2) distinct commuting linear fields u = A x, v = (A^2 + 2A) x on the (generally non-cubic) grid:
+    #                      their bracket vanishes in the interior for every derivative scheme, Gaussian derivatives
+    #                      included, with the default (per-axis) spacing; the bracket of non-commuting linear fields has
+    #                      the analytic value (B A - A B) x up to the accuracy of the scheme
+    with ctx.guard("lie_bracket(linear fields)", key="exc/bracket_linear", **info):
+        ctx.bucket("bracket/linear_fields")
+        xs = F.norm_coords(shape, ac)
+        A_ = rng.normal(size=(D, D)) * 0.4
+        B_ = A_ @ A_ + 2 * A_
+        C_ = rng.normal(size=(D, D)) * 0.4
+        lin = lambda M: torch.tensor(F.velocity_field(M, np.zeros(D), xs)[None], dtype=torch.float64)  # noqa: E731
+        ua_, vb_, wc_ = lin(A_), lin(B_), lin(C_)
+        spc = tuple(float(q) for q in (2.0 / (np.asarray(shape[::-1], dtype=np.float64) - (1 if ac else 0))))
+        rim = 4
+        inner = (slice(None), slice(None)) + (slice(rim, -rim),) * D
+        if min(shape) > 2 * rim + 1:
+            scale_ = float((np.abs(A_).max() + np.abs(C_).max()) ** 2) + 1e-9
+            want_nc = torch.tensor(F.velocity_field(A_ @ C_ - C_ @ A_, np.zeros(D), xs)[None], dtype=torch.float64)
+            for mode_, kw_, rel_ in (("central", {}, 2e-6), ("sobel", {}, 2e-6), ("gaussian", {"sigma": 0.7}, 0.2), ("gaussian", {"sigma": 1.0}, 0.2)):
+                lb0 = U.lie_bracket(ua_, vb_, mode=mode_, spacing=spc, **kw_)[inner]
+                ctx.close("bracket_of_commuting_linear_fields_vanishes", lb0, torch.zeros_like(lb0), rel_ * 0.05 * scale_ + 1e-9, key=f"bracket/linear/commuting/{mode_}", mode=mode_, **info)
+                lb1 = U.lie_bracket(ua_, wc_, mode=mode_, spacing=spc, **kw_)[inner]
+                w_ = want_nc[inner]
+                # sign and size: the documented definition [v, u] = Jac(v) u - Jac(u) v, here (A C - C A) x
+                ctx.close("bracket_of_linear_fields_has_analytic_value", lb1, w_, rel_ * float(w_.abs().max()) + 1e-9, key=f"bracket/linear/value/{mode_}", mode=mode_, **info)
+                ctx.bucket(f"bracket/linear_fields/{mode_}")
     # ---------------- (c) BCH composition
     with ctx.guard("compose_svfs", **info):
         ctx.bucket("bch_commuting")
@@ -214,6 +240,13 @@ def run_item(ctx, item):
             err = float(np.abs(to_samples((back - f)[0].double().numpy(), sshape, ac)).max())
             ctx.note_max(f"logv_err_samples_D{D}_ac{ac}_a{amp}", err)
             ctx.close("logv_of_expv_returns_field", err, 0.0, 0.4 * amp * amp + 0.1 * amp, key=f"logv/roundtrip/ac={ac}", amplitude=amp, smooth_shape=list(sshape), **info)
+            # zero exponentiation steps: exp is the identity on the field (exp(v) = v, exp(-v) = -v), and so is log
+            e0 = U.expv(f, steps=0, align_corners=ac)
+            for its in (1, 3):
+                b0 = U.logv(e0, num_iters=its, exp_steps=0, align_corners=ac, spacing=spacing)
+                err0 = float(np.abs(to_samples((b0 - f)[0].double().numpy(), sshape, ac)).max())
+                ctx.close("logv_with_zero_exp_steps_returns_field", err0, 0.0, 0.4 * amp * amp + 0.1 * amp, key=f"logv/exp_steps=0/ac={ac}", num_iters=its, amplitude=amp, **info)
+            ctx.bucket("logv/exp_steps=0")
             # one fixed-point iteration must already reduce the residual of the initial guess v0 = flow
             r0 = float(np.abs(to_samples((e - f)[0].double().numpy(), sshape, ac)).max())
             ctx.true("logv_improves_on_initial_guess", err <= r0 + 1e-3, key=f"logv/roundtrip/ac={ac}", err=err, initial=r0, **info)
